@@ -396,6 +396,15 @@ func c05Corrupt(t *testing.T) {
 					c := &Counter{name: name, file: e.f}
 					c.Add(int64(1 + rnd.Intn(5)))
 				}
+				if rnd.Intn(4) == 0 {
+					// (several pages of records)
+					for k, nb := 0, 4+rnd.Intn(9); k < nb; k++ {
+						name := fmt.Sprintf("verif/big/%d/", k) + strings.Repeat("B", 3000+rnd.Intn(1000))
+						names = append(names, name)
+						c := &Counter{name: name, file: e.f}
+						c.Add(1)
+					}
+				}
 				// bystanders: counters of this file that the host never touches
 				// afterwards ("failures never change the values of other counters")
 				for k := 0; k < 3; k++ {
@@ -573,6 +582,15 @@ var c05Damages = append(append([]vfDamage{}, vfDamages...),
 	vfDamage{"limit-wrap", func(r *verifrt.Rand, d []byte, cf *verifref.CounterFile) []byte {
 		vfPut32(d, cf.HdrLen, uint32(verifrt.Pick(r, []int{0xffffc001, 0xfffffff0, 0xffffffe0, 0xffffc000, 0x7fffffff})))
 		return d
+	}},
+	vfDamage{"truncate-to-page", func(r *verifrt.Rand, d []byte, cf *verifref.CounterFile) []byte {
+		// a file that had grown over several pages, cut back at rest to fewer
+		// whole pages: limit, bucket heads and links point beyond its end
+		pages := len(d) / verifref.PageSize
+		if pages < 2 {
+			return nil
+		}
+		return d[:verifref.PageSize*(1+r.Intn(pages-1))]
 	}},
 	vfDamage{"limit-page-edge", func(r *verifrt.Rand, d []byte, cf *verifref.CounterFile) []byte {
 		vfPut32(d, cf.HdrLen, uint32(len(d)-verifrt.Pick(r, []int{0, 32, 64, 4, 16})))
